@@ -346,6 +346,12 @@ func (p *Process) waitForCompletion() int {
 	return p.getExitCode()
 }
 
+func (p *Process) isDone() bool {
+	p.Lock()
+	defer p.Unlock()
+	return p.done
+}
+
 func (p *Process) waitUntilReady() bool {
 	<-p.procReadyCtx.Done()
 	if p.procState.Health == types.ProcessHealthReady {
